@@ -76,6 +76,7 @@ type Result struct {
 	Switches     int
 	Preemptions  int
 	Stalls       int
+	LockWaitEnd  []string // goroutines still waiting for a lock (or a sync.Once) when the run ended
 	Marks        int // network events observed by goroutines under the scheduler
 	Lags         int // times the schedule generator let such a goroutine fall behind
 	StallTotal   time.Duration
@@ -882,6 +883,19 @@ func finalize() Result {
 	}
 	sort.Slice(res.SitePairs, func(i, j int) bool { return res.SitePairs[i] < res.SitePairs[j] })
 	res.Trace = traceBuf
+	res.LockWaitEnd = nil
+	{
+		var lw []*G
+		for _, g := range gs {
+			if !g.outside && g.state == stLockWait {
+				lw = append(lw, g)
+			}
+		}
+		sort.Slice(lw, func(i, j int) bool { return lw[i].id < lw[j].id })
+		for _, g := range lw {
+			res.LockWaitEnd = append(res.LockWaitEnd, fmt.Sprintf("%s at %s", g.id, SiteName(g.site)))
+		}
+	}
 	if res.Status != "ok" {
 		var all []*G
 		for _, g := range gs {
